@@ -23,29 +23,27 @@ Theorem C07_fuel_linear : forall body,
   body_fuel body <= fold_right (fun t n => 2 * String.length t + 1 + n) 0 body.
 Proof. exact body_fuel_linear. Qed.
 
-(** Only documented errors -- FALSE at full strength (next two theorems).
-    Proved under the guard [c07_guard true]: the parser has an initial context,
+(** Only documented errors -- FALSE at full strength (F-C07b below).
+    Proved under the guard [c07_guard]: the parser has an initial context and
     arguments are well-formed (named; counters start from a number; list
-    arguments are not value-optional) and none is int-valued.  Then the outcome
-    is a result or ParseError: AttributeError, KeyError, TypeError, ValueError
-    and fluidity's InvalidTransition are unreachable.
-    Missing for full strength: int-valued arguments (F-C07a), parsers without
-    initial context (F-C07b). *)
+    arguments are not value-optional; an argument called "help" is not
+    int-valued).  Int-valued arguments ARE allowed, so the theorem applies to
+    the real core context ([C07_guard_inhabited]).  Then the outcome is a
+    result or ParseError: AttributeError, KeyError, TypeError, ValueError and
+    fluidity's InvalidTransition are unreachable.
+    Missing for full strength: parsers without initial context (F-C07b). *)
 Theorem C07_only_parse_errors_partial : forall cs init ign argv,
-  c07_guard true cs init = true ->
+  c07_guard cs init = true ->
   match parser_parse cs init ign argv with Ok _ => True | Err e => e = EParse end.
-Proof. exact only_parse_errors_int_free. Qed.
+Proof. exact only_parse_errors. Qed.
 
-(** With int-valued arguments allowed, the only additional escape is ValueError. *)
-Theorem C07_only_parse_or_value_errors_partial : forall cs init ign argv,
-  c07_guard false cs init = true ->
-  match parser_parse cs init ign argv with Ok _ => True | Err e => e = EParse \/ e = EValue end.
-Proof. exact only_parse_or_value_errors. Qed.
-
-Theorem C07_only_parse_errors_refuted_int :
-  exists cs init argv,
-    c07_guard false cs init = true /\ parser_parse cs init false argv = Err EValue.
-Proof. exact refuted_int. Qed.
+(** F-C07a is repaired (401bc73): a value the argument's type cannot convert
+    is a ParseError, for flags and through the core pass alike. *)
+Theorem C07_int_value_is_parse_error :
+  c07_guard small_cs (Some core_ctx) = true /\
+  parser_parse small_cs (Some core_ctx) false ["t"; "--num=abc"] = Err EParse /\
+  parser_parse [] (Some core_ctx) true ["-T"; "abc"] = Err EParse.
+Proof. exact int_value_is_parse_error. Qed.
 
 Theorem C07_only_parse_errors_refuted_no_initial :
   exists cs argv, parser_ok cs = true /\ parser_parse cs None false argv = Err EAttr.
@@ -65,14 +63,14 @@ Proof. exact missing_positional_errors. Qed.
     (F-C07d): the model accepts, the executable specification rejects. *)
 Theorem C07_missing_value_errors_refuted_list :
   exists cs init argv r,
-    c07_guard false cs init = true /\
+    c07_guard cs init = true /\
     parser_parse cs init false argv = Ok r /\
     spec_ok cs init false argv (Ok (obs_of_presult r)) = false.
 Proof. exact refuted_list. Qed.
 
 Theorem C07_missing_value_errors_refuted_repeat :
   exists cs init argv r,
-    c07_guard false cs init = true /\
+    c07_guard cs init = true /\
     parser_parse cs init false argv = Ok r /\
     spec_ok cs init false argv (Ok (obs_of_presult r)) = false.
 Proof. exact refuted_repeat. Qed.
@@ -86,8 +84,8 @@ Proof. exact spec_sweep_3. Qed.
 
 (** Non-vacuity: the guards are satisfied by real-looking parsers. *)
 Example C07_guard_inhabited :
-  c07_guard false small_cs (Some core_ctx) = true /\
-  c07_guard true [ctx_t_noint; ctx_p] (Some init_noint) = true /\
+  c07_guard small_cs (Some core_ctx) = true /\
+  c07_guard [ctx_t_noint; ctx_p] (Some init_noint) = true /\
   exists r, parser_parse [ctx_t_noint; ctx_p] (Some init_noint) false
                          ["t"; "-vv"; "--name=x"; "-e"; "q"; "5"; "--no-yes"] = Ok r
             /\ List.length (pr_ctxs r) = 3.
